@@ -135,6 +135,15 @@ CLAIMED["C15"] = (
     "The overwrite policy (ALWAYS / SKIP x file exists x format x method x foreign writer in between, second write on the same "
     "object) is explored exhaustively on real files.",
     "histories <= 4 steps, two writers; protobuf writes only on a concrete scenario; lxml serialisation outside", "2/C15")
+CLAIMED["C02"] = (
+    "Message passthrough: the real XxxMessage.create_message builders run symbolically against stub message objects generated "
+    "at run time from the repository's *_pb2 DESCRIPTORs (proto2 presence / oneof / defaults / scalar type checks / required "
+    "fields); the stub tree is handed to the real XxxFactory.create_from_message readers. For 25 skeleton scenarios with "
+    "symbolic leaves plus obligations for optional data (first occurrences, virtual flag, environment / time / geo "
+    "transformation, default-constructed obstacles, partially populated signal states, partial goal-lanelet tables) z3 proves "
+    "that every real read back is the identical term and discrete content is identical. The stub is validated field by field "
+    "and byte for byte against google.protobuf on concrete messages (obligation stub-vs-real); concrete replays use the real bytes.",
+    "wire format outside (assumed lossless); skeleton size bounds; KST hitch angle has no .proto field", "2/C02")
 NOT_YET = {}
 
 props = [json.loads(l) for l in open(os.path.join(ROOT, "properties.jsonl"))]
